@@ -544,35 +544,62 @@ fn fully_matches(f: &Front, host: &str, path: &str, method: &str) -> bool {
 }
 
 /// admissible answers (the winning configured frontends); empty = no route
-fn spec_route<'a>(s: &'a [Fe], host: &str, path: &str, method: &str) -> Vec<&'a Fe> {
+/// admissible answers: the winning configured frontends, and whether "no
+/// route" is admissible too. Host patterns of equal specificity (two regex
+/// hosts) are unordered: one of them is chosen, then the best rule of that
+/// host, or - if none of its rules matches - the post rules.
+fn spec_answers<'a>(s: &'a [Fe], host: &str, path: &str, method: &str) -> (Vec<&'a Fe>, bool) {
     if let Some(fe) = s.iter().find(|fe| fe.f.pos == 0 && fully_matches(&fe.f, host, path, method)) {
-        return vec![fe];
+        return (vec![fe], false);
     }
+    let post = s.iter().find(|fe| fe.f.pos == 1 && fully_matches(&fe.f, host, path, method));
     let hs: Vec<(&Fe, Vec<u8>)> = s
         .iter()
         .filter(|fe| fe.f.pos == 2)
         .filter_map(|fe| tree_host_match(&fe.f.host, host).map(|v| (fe, v)))
         .collect();
     let group: Vec<&Fe> = hs.iter().filter(|x| !hs.iter().any(|y| x.1 < y.1)).map(|x| x.0).collect();
-    let cands: Vec<(&Fe, (u8, usize, u8))> =
-        group.iter().filter_map(|fe| rank(&fe.f, path, method).map(|r| (*fe, r))).collect();
-    let best: Vec<&Fe> = cands.iter().filter(|x| !cands.iter().any(|y| x.1 < y.1)).map(|x| x.0).collect();
-    if !best.is_empty() {
-        return best;
+    let mut hosts: Vec<&str> = vec![];
+    for fe in &group {
+        if !hosts.contains(&fe.f.host.as_str()) {
+            hosts.push(&fe.f.host);
+        }
     }
-    if let Some(fe) = s.iter().find(|fe| fe.f.pos == 1 && fully_matches(&fe.f, host, path, method)) {
-        return vec![fe];
+    let mut winners: Vec<&Fe> = vec![];
+    let mut to_post = hosts.is_empty();
+    for h in hosts {
+        let cands: Vec<(&Fe, (u8, usize, u8))> = group
+            .iter()
+            .filter(|fe| fe.f.host == h)
+            .filter_map(|fe| rank(&fe.f, path, method).map(|r| (*fe, r)))
+            .collect();
+        let best: Vec<&Fe> = cands.iter().filter(|x| !cands.iter().any(|y| x.1 < y.1)).map(|x| x.0).collect();
+        if best.is_empty() {
+            to_post = true;
+        } else {
+            winners.extend(best);
+        }
     }
-    vec![]
+    let mut none_ok = false;
+    if to_post {
+        match post {
+            Some(fe) => winners.push(fe),
+            None => none_ok = true,
+        }
+    }
+    (winners, none_ok)
 }
 
-fn show_spec(w: &[&Fe]) -> String {
-    let set: BTreeSet<&str> = w.iter().map(|fe| fe.res.as_str()).collect();
-    if set.is_empty() {
-        "none".into()
-    } else {
-        set.into_iter().collect::<Vec<_>>().join(";")
+fn spec_route<'a>(s: &'a [Fe], host: &str, path: &str, method: &str) -> Vec<&'a Fe> {
+    spec_answers(s, host, path, method).0
+}
+
+fn show_spec(w: &[&Fe], none_ok: bool) -> String {
+    let mut set: BTreeSet<&str> = w.iter().map(|fe| fe.res.as_str()).collect();
+    if none_ok || set.is_empty() {
+        set.insert("none");
     }
+    set.into_iter().collect::<Vec<_>>().join(";")
 }
 
 fn has_re_seg(host: &str) -> bool {
@@ -586,10 +613,34 @@ fn mid_regex(host: &str) -> bool {
 /// Root-cause fingerprint of a wrong answer `x` for a probe, given the
 /// configured set `s`, every frontend ever added (`hist`), and the admissible
 /// winners `w`.
+thread_local! {
+    static REGEX_SHAPES: std::cell::Cell<bool> = const { std::cell::Cell::new(false) };
+}
+
+/// does the op list contain the shape of one of the two open regex findings?
+fn regex_shapes(ops: &[String]) -> bool {
+    let hosts: Vec<String> = ops
+        .iter()
+        .filter_map(|l| match parse_op(l) {
+            Op::Add(f) | Op::Rem(f) if f.pos == 2 => Some(f.host),
+            _ => None,
+        })
+        .collect();
+    let f29 = hosts.iter().any(|h| has_re_seg(h) && mid_regex(h));
+    let f28 = hosts.iter().any(|r| {
+        has_re_seg(r) && hosts.iter().any(|l| !l.contains('/') && !l.contains('*') && tree_host_match(r, l).is_some())
+    });
+    f28 || f29
+}
+
 fn classify(s: &[Fe], hist: &[Fe], removed: &[Front], w: &[&Fe], x: &str, host: &str, path: &str, method: &str) -> String {
     let tree_re_hist: Vec<&Fe> = hist.iter().filter(|fe| fe.f.pos == 2 && has_re_seg(&fe.f.host)).collect();
     let re_matching: Vec<&&Fe> = tree_re_hist.iter().filter(|fe| tree_host_match(&fe.f.host, host).is_some()).collect();
-    let re_involved = !re_matching.is_empty();
+    // the regex findings need their shape in the history: a literal tree host matched by a
+    // leftmost-regex tree host (F28) or a regex segment that is not the leftmost label (F29);
+    // in histories without these shapes a wrong answer on a regex-matched host is judged
+    // like any other (host precedence exact > wildcard > regex, etc.)
+    let re_involved = !re_matching.is_empty() && REGEX_SHAPES.with(|c| c.get());
     // a regex-segment host pattern of the history matches the probe host: the two regex findings
     let regex_class = if re_matching.iter().any(|fe| mid_regex(&fe.f.host)) {
         "regex-segment-no-backtrack".to_string()
@@ -671,9 +722,9 @@ fn degenerate_host(h: &str) -> bool {
 }
 
 fn is_admissible(s: &[Fe], x: &str, h: &str, p: &str, m: &str) -> bool {
-    let w = spec_route(s, h, p, m);
+    let (w, none_ok) = spec_answers(s, h, p, m);
     if x == "none" {
-        w.is_empty()
+        none_ok
     } else {
         w.iter().any(|fe| fe.res == x)
     }
@@ -1113,6 +1164,15 @@ impl Area for RouterArea {
                 ],
                 &[("a.io", "/ab", "GET")],
             ),
+            // host precedence wildcard > regex host, exact > regex host (no literal host under the regex)
+            witness(
+                &[
+                    (true, fs(2, "/b.*/.a.io", 0, "/", None, "c1")),
+                    (true, fs(2, "*.a.io", 0, "/", None, "c2")),
+                    (true, fs(2, "/[bc]+/.a.io", 0, "/a", None, "c3")),
+                ],
+                &[("b.a.io", "/a", "GET"), ("bc.a.io", "/", "GET"), ("d.a.io", "/a", "GET")],
+            ),
             // sanity: exact > wildcard, longest prefix, pre before tree before post
             witness(
                 &[
@@ -1150,6 +1210,7 @@ impl Area for RouterArea {
 impl RouterArea {
     /// one pass over the ops on the real router with all oracles (surface classes)
     fn run_core(&self, ops: &[String]) -> ImplRun {
+        REGEX_SHAPES.with(|c| c.set(regex_shapes(ops)));
         let mut r = ImplRun::default();
         let mut router = Router::new();
         let mut s: Vec<Fe> = vec![]; // configured set (spec semantics)
@@ -1168,20 +1229,20 @@ impl RouterArea {
                                tree_routed: &mut bool|
          -> (String, String) {
             let x = impl_lookup(router, h, p, m);
-            let w = spec_route(s, h, p, m);
+            let (w, none_ok) = spec_answers(s, h, p, m);
             let admissible: BTreeSet<&str> = w.iter().map(|fe| fe.res.as_str()).collect();
             if !w.is_empty() {
                 *tree_routed = true;
             }
-            let ok = if x == "none" { w.is_empty() } else { admissible.contains(x.as_str()) };
+            let ok = if x == "none" { none_ok } else { admissible.contains(x.as_str()) };
             if degenerate_host(h) {
-                return (x, show_spec(&w));
+                return (x, show_spec(&w, none_ok));
             }
             if !ok {
                 let class = classify(s, hist, removed, &w, &x, h, p, m);
                 // removed-never-routes is the special case "x is carried by no configured frontend"
                 let which = if x != "none" && !s.iter().any(|fe| fe.res == x) { "removed-never-routes" } else { "precedence" };
-                fails.insert((class, format!("{which}: probe {h} {p:?} {m}: got `{x}`, admissible `{}`", show_spec(&w))));
+                fails.insert((class, format!("{which}: probe {h} {p:?} {m}: got `{x}`, admissible `{}`", show_spec(&w, none_ok))));
             }
             let key = (canon_set(s), format!("{h}|{p}|{m}"));
             match seen.get(&key) {
@@ -1190,7 +1251,7 @@ impl RouterArea {
                 }
                 Some(prev) if *prev != x => {
                     let both_ok = ok
-                        && (if prev == "none" { w.is_empty() } else { admissible.contains(prev.as_str()) });
+                        && (if prev == "none" { none_ok } else { admissible.contains(prev.as_str()) });
                     if !both_ok {
                         // blame the answer that is not admissible
                         let bad = if ok { prev.clone() } else { x.clone() };
@@ -1200,7 +1261,7 @@ impl RouterArea {
                 }
                 _ => {}
             }
-            (x, show_spec(&w))
+            (x, show_spec(&w, none_ok))
         };
 
         for (i, line) in ops.iter().enumerate() {
@@ -1351,7 +1412,7 @@ impl RouterArea {
     fn run_causal(&self, ops: &[String]) -> ImplRun {
         let mut r = self.run_core(ops);
         let suspicious = |c: &str| !REGEX_CLASSES.contains(&c) && c != "nonmatching-frontend-changes-host-group";
-        if !r.oracle.iter().any(|(c, _)| suspicious(c)) || !ops.iter().any(|l| is_tree_regex_op(l, false)) {
+        if !r.oracle.iter().any(|(c, _)| suspicious(c)) || !ops.iter().any(|l| is_tree_regex_op(l, false)) || !regex_shapes(ops) {
             return r;
         }
         let without = |only_mid: bool| -> BTreeSet<String> {
